@@ -25,11 +25,29 @@ type vTextErr struct{ text string }
 
 func (e *vTextErr) Error() string { return e.text }
 
+// error types whose non-nil values are the zero value of their type
+type vEmptyErr struct{}
+
+func (vEmptyErr) Error() string { return "empty-struct error" }
+
+type vCodeErr int
+
+func (e vCodeErr) Error() string { return "code error" }
+
+// vMakeErr returns a non-nil error with the given message where the type
+// allows it; two of the five types are zero values of their type.
 func vMakeErr(text string) error {
-	if vx.Choice(2) == 0 {
+	switch vx.Choice(5) {
+	case 0:
 		return errors.New(text)
+	case 1:
+		return &vTextErr{text}
+	case 2:
+		return vEmptyErr{}
+	case 3:
+		return vCodeErr(0)
 	}
-	return &vTextErr{text}
+	return vCodeErr(vx.Int(1, 9))
 }
 
 // expectation: status to be sent (0 = none), body bytes, or "open" clauses
@@ -69,7 +87,7 @@ func VH_C14_return() {
 	case "error":
 		if !isNil {
 			errv = vMakeErr(text)
-			exp = vExpect{status: 500, body: text}
+			exp = vExpect{status: 500, body: errv.Error()}
 		}
 		h = func() error { return errv }
 	case "int-string":
@@ -93,7 +111,7 @@ func VH_C14_return() {
 		exp = vExpect{status: code}
 		if !isNil {
 			// "(int, error) uses the int as status and the second value as body"
-			exp.body = text
+			exp.body = errv.Error()
 		}
 	case "string-error":
 		if !isNil {
